@@ -94,11 +94,12 @@ type pstate struct {
 	visits  map[*ssa.BasicBlock]int
 	looped  bool
 	params  map[*ssa.Parameter]string
+	epoch   int // incremented at every lock/unlock: reads of shared memory in different epochs are different values
 }
 
 func (s *pstate) clone() *pstate {
 	n := &pstate{fn: s.fn, mem: map[string]string{}, phi: map[*ssa.Phi]string{}, vals: map[ssa.Value]string{},
-		visits: map[*ssa.BasicBlock]int{}, looped: s.looped, params: s.params}
+		visits: map[*ssa.BasicBlock]int{}, looped: s.looped, params: s.params, epoch: s.epoch}
 	for k, v := range s.mem {
 		n.mem[k] = v
 	}
@@ -188,6 +189,9 @@ func BuildPathTable(fn *ssa.Function, opts PathOpts) *PathTable {
 			case *ssa.Go:
 				st.effects = append(st.effects, Effect{"go", st.callTerm(&x.Call), x.Pos()})
 			case *ssa.Call:
+				if _, op := lockCallInfo(&x.Call); op != "" {
+					st.epoch++
+				}
 				ct := st.callTerm(&x.Call)
 				st.vals[x] = ct
 				st.effects = append(st.effects, Effect{"call", ct, x.Pos()})
@@ -490,7 +494,15 @@ func (s *pstate) term(v ssa.Value) string {
 	case *ssa.Index:
 		return s.term(x.X) + "[" + s.term(x.Index) + "]"
 	case *ssa.Lookup:
-		return s.term(x.X) + "[" + s.term(x.Index) + "]"
+		t := s.term(x.X) + "[" + s.term(x.Index) + "]"
+		if s.epoch > 0 {
+			if r, _, _ := rootOf(x.X); r != nil {
+				if _, isGlobal := r.(*ssa.Global); isGlobal {
+					t += fmt.Sprintf("@e%d", s.epoch)
+				}
+			}
+		}
+		return t
 	case *ssa.UnOp:
 		switch x.Op {
 		case token.MUL:
